@@ -77,6 +77,15 @@ type Bundle struct {
 	files       []scannerFile
 	entryPoints []graph.EntryPoint
 	options     config.Options
+
+	// The canonical paths of all files in the "file" namespace that the scan
+	// tried to load, including the ones that failed to load or to parse (which
+	// are not present in "files")
+	visitedFilePaths []string
+
+	// If this is true, the scan was stopped early and the set of input files is
+	// unknown. The other fields are not populated in that case.
+	scanWasCancelled bool
 }
 
 type parseArgs struct {
@@ -1491,40 +1500,48 @@ func ScanBundle(
 
 	// We can check the cancel flag now that all "onStart" callbacks are done
 	if options.CancelFlag.DidCancel() {
-		return Bundle{options: options}
+		return Bundle{fs: fs, options: options, scanWasCancelled: true}
 	}
 
 	s.preprocessInjectedFiles()
 
 	if options.CancelFlag.DidCancel() {
-		return Bundle{options: options}
+		return Bundle{fs: fs, options: options, scanWasCancelled: true}
 	}
 
 	entryPointMeta := s.addEntryPoints(entryPoints)
 
 	if options.CancelFlag.DidCancel() {
-		return Bundle{options: options}
+		return Bundle{fs: fs, options: options, scanWasCancelled: true}
 	}
 
 	s.scanAllDependencies()
 
 	if options.CancelFlag.DidCancel() {
-		return Bundle{options: options}
+		return Bundle{fs: fs, options: options, scanWasCancelled: true}
 	}
 
 	files := s.processScannedFiles(entryPointMeta)
 
 	if options.CancelFlag.DidCancel() {
-		return Bundle{options: options}
+		return Bundle{fs: fs, options: options, scanWasCancelled: true}
+	}
+
+	visitedFilePaths := make([]string, 0, len(s.visited))
+	for path := range s.visited {
+		if path.Namespace == "file" {
+			visitedFilePaths = append(visitedFilePaths, path.Text)
+		}
 	}
 
 	return Bundle{
-		fs:              fs,
-		res:             s.res,
-		files:           files,
-		entryPoints:     entryPointMeta,
-		uniqueKeyPrefix: uniqueKeyPrefix,
-		options:         s.options,
+		fs:               fs,
+		res:              s.res,
+		files:            files,
+		entryPoints:      entryPointMeta,
+		uniqueKeyPrefix:  uniqueKeyPrefix,
+		options:          s.options,
+		visitedFilePaths: visitedFilePaths,
 	}
 }
 
@@ -3082,10 +3099,23 @@ type Linker func(
 // This returns true if the given absolute path is one of the files in the "file"
 // namespace that was scanned for this bundle (even if the scan reported errors)
 func (b *Bundle) ContainsInputFile(absPath string) bool {
+	// If the scan was cancelled, we don't know what the input files are. Be
+	// conservative and assume that this could be one of them.
+	if b.scanWasCancelled || b.fs == nil {
+		return true
+	}
+
 	key := canonicalFileSystemPathForWindows(b.fs.Join(absPath))
 	for _, file := range b.files {
 		if keyPath := file.inputFile.Source.KeyPath; keyPath.Namespace == "file" &&
 			canonicalFileSystemPathForWindows(b.fs.Join(keyPath.Text)) == key {
+			return true
+		}
+	}
+
+	// Also check files that failed to load or to parse
+	for _, path := range b.visitedFilePaths {
+		if canonicalFileSystemPathForWindows(b.fs.Join(path)) == key {
 			return true
 		}
 	}
